@@ -1,6 +1,7 @@
 import Hl7.Lemmas.Split
 import Hl7.Lemmas.Slots
 import Hl7.Model.Parse
+import Hl7.Model.Cascade
 import Hl7.Gen.V2_5
 import Std.Data.String.ToNat
 /-!
@@ -79,6 +80,66 @@ theorem C01_text_roundtrip (d : String) (sep : Char) (t : Str) (n : Nat)
     join sep (render (dropTrailing (groupsByName d (parseKids d 0 (splitOn sep t)) 0 n))) = t := by
   rw [C01_level_roundtrip d _ n hn hc, join_splitOn]
 
+
+/-! ### the whole cascade: every depth at once -/
+
+theorem pieces_mem (i : Nat) (xs : List Str) : ∀ p ∈ pieces i xs, p.2 ∈ xs ∧ p.2 ≠ [] := by
+  induction xs generalizing i with
+  | nil => simp [pieces]
+  | cons x xs ih =>
+    intro p hp
+    unfold pieces at hp
+    split at hp
+    · have := ih (i+1) p hp
+      exact ⟨List.mem_cons_of_mem _ this.1, this.2⟩
+    · next hx =>
+      rcases List.mem_cons.mp hp with h | h
+      · subst h; exact ⟨List.mem_cons_self, hx⟩
+      · have := ih (i+1) p h
+        exact ⟨List.mem_cons_of_mem _ this.1, this.2⟩
+
+/-- **C01 (the cascade, every depth).** For every list of levels — positional levels of any width and separator, repetition
+    levels of any separator, in any order and to any depth — and every text that is canonical for it (no trailing empty
+    piece and no overflow at positional levels, recursively): splitting level by level down to the leaves, filing the
+    non-empty pieces under their positions, and encoding back in table order with trailing empties trimmed gives the text
+    back, character for character. -/
+theorem C01_cascade : ∀ (ls : List Casc.Lvl) (s : Str), Casc.Canon ls s → Casc.enc ls (Casc.parse ls s) = s
+  | [], s, _ => rfl
+  | .pos c w :: ls, s, h => by
+    obtain ⟨hlen, hnte, hrec⟩ := h
+    simp only [Casc.parse, Casc.enc, List.map_map]
+    have hmap : (pieces 0 (splitOn c s)).map ((fun p => (p.1, Casc.enc ls p.2)) ∘ (fun p => (p.1, Casc.parse ls p.2))) = pieces 0 (splitOn c s) := by
+      have : ∀ p ∈ pieces 0 (splitOn c s), ((fun p => (p.1, Casc.enc ls p.2)) ∘ (fun p : Nat × Str => (p.1, Casc.parse ls p.2))) p = p := by
+        intro p hp
+        obtain ⟨hm, hne⟩ := pieces_mem 0 _ p hp
+        simp only [Function.comp]
+        rw [C01_cascade ls p.2 (hrec p.2 hm hne)]
+      rw [List.map_congr_left this]; simp
+    rw [hmap, slots_roundtrip _ w hlen hnte, join_splitOn]
+  | .rep c :: ls, s, h => by
+    simp only [Casc.parse, Casc.enc, List.map_map]
+    have hmap : (splitOn c s).map (Casc.enc ls ∘ Casc.parse ls) = splitOn c s := by
+      have : ∀ x ∈ splitOn c s, (Casc.enc ls ∘ Casc.parse ls) x = x := by
+        intro x hx
+        simp only [Function.comp]
+        exact C01_cascade ls x (h x hx)
+      rw [List.map_congr_left this]; simp
+    rw [hmap, join_splitOn]
+
+/-- the levels of a segment body: fields (positional), repetitions, components, subcomponents -/
+def segLevels (ec : EC) (nf nc ns : Nat) : List Casc.Lvl :=
+  [.pos ec.field nf, .rep ec.rep, .pos ec.comp nc, .pos ec.sub ns]
+
+/-- **C01 (segment body).** Instance for the four ER7 levels with any delimiter set and any table widths. -/
+theorem C01_segment_body (ec : EC) (nf nc ns : Nat) (body : Str) (h : Casc.Canon (segLevels ec nf nc ns) body) :
+    Casc.enc (segLevels ec nf nc ns) (Casc.parse (segLevels ec nf nc ns) body) = body :=
+  C01_cascade _ body h
+
+/-- non-vacuity: a concrete body with an empty field, a repetition and a subcomponent is canonical, and the cascade gives it back -/
+example : Casc.Canon (segLevels EC.default 30 12 6) "1||A^B&C~D||X^^Y".toList ∧
+    Casc.enc (segLevels EC.default 30 12 6) (Casc.parse (segLevels EC.default 30 12 6) "1||A^B&C~D||X^^Y".toList) = "1||A^B&C~D||X^^Y".toList := by
+  have hc : Casc.Canon (segLevels EC.default 30 12 6) "1||A^B&C~D||X^^Y".toList := Casc.canonB_sound _ _ (by decide)
+  exact ⟨hc, C01_cascade _ _ hc⟩
 
 /-- non-vacuity: a concrete canonical component text satisfies the hypotheses -/
 example : join '&' (render (dropTrailing (groupsByName "CWE" (parseKids "CWE" 0 (splitOn '&' "ID&TEST&&AHAH".toList)) 0 9)))
